@@ -348,8 +348,13 @@ def _sort_dependencies(
 
         else:
             if last_name == dependency.name:
-                order.append(last_name)
-                break
+                # Popped twice in a row without progress: the element is alone
+                # in the queue and needs something only it provides itself
+                raise CircularDependencyError(
+                    missing={
+                        dependency.name: dependency.required.difference(available)
+                    }
+                )
             queue.put(dependency)
             last_name = dependency.name
         i += 1
